@@ -3,6 +3,7 @@ import Starcal.Drv.Misc
 import Starcal.Drv.Ival
 import Starcal.Drv.Tod
 import Starcal.Drv.ByNameDrv
+import Starcal.Drv.RulesDrv
 /-! Line-protocol driver: runs the executable definitions of the model (the very
     definitions the theorems are about) on requests read from stdin, one response
     line per request. See DESIGN.md section 10b. -/
@@ -15,6 +16,8 @@ def dispatch (toks : List String) : String :=
   | "ival" :: rest => ivalRequest rest
   | "tod" :: rest => todRequest rest
   | "byname" :: rest => byNameRequest rest
+  | "rules" :: rest => rulesRequest rest
+  | "text" :: rest => textRequest rest
   | _ => "bad-request"
 
 partial def loop (inp : IO.FS.Stream) (out : IO.FS.Stream) : IO Unit := do
